@@ -205,7 +205,7 @@ func newProject(o *opts, base string, cacheLoc string) *Project {
 	must(os.MkdirAll(p.Xdg, 0o755))
 	switch cacheLoc {
 	case "abs":
-		p.CacheDir = filepath.Join(base, "cache_abs")
+		p.CacheDir = filepath.Join(base, "cache:abs") // a colon: not a remote, not a drive, just a name
 		p.CacheCfg = p.CacheDir
 	case "xdev":
 		p.CacheDir = filepath.Join(o.shm, filepath.Base(base), "cache_x")
@@ -452,17 +452,49 @@ func (p *Project) observe() *World {
 
 // writeStage writes a stage file through dud's own serializer.
 func (p *Project) writeStage(rel string, s *StageRec) {
-	stg := stage.Stage{Checksum: s.Cs, Command: s.Cmd, WorkingDir: s.Wd,
-		Inputs: map[string]*artifact.Artifact{}, Outputs: map[string]*artifact.Artifact{}}
-	for _, a := range s.In {
-		stg.Inputs[a.Path] = &artifact.Artifact{Checksum: a.Cs, Path: a.Path, IsDir: a.IsDir, DisableRecursion: a.NoRec}
+	// written by hand, as a user would, NOT through the code under test (a serialiser that drops a
+	// flag must not silently turn every scenario into a weaker one)
+	var sb strings.Builder
+	if s.Cs != "" {
+		fmt.Fprintf(&sb, "checksum: %s\n", jsonStr(s.Cs))
 	}
-	for _, a := range s.Out {
-		stg.Outputs[a.Path] = &artifact.Artifact{Checksum: a.Cs, Path: a.Path, IsDir: a.IsDir, DisableRecursion: a.NoRec, SkipCache: a.Skip}
+	if s.Cmd != "" {
+		fmt.Fprintf(&sb, "command: %s\n", jsonStr(s.Cmd))
 	}
+	if s.Wd != "" {
+		fmt.Fprintf(&sb, "working-dir: %s\n", jsonStr(s.Wd))
+	}
+	arts := func(title string, l []Art, withSkip bool) {
+		if len(l) == 0 {
+			return
+		}
+		fmt.Fprintf(&sb, "%s:\n", title)
+		for _, a := range l {
+			var attrs []string
+			if a.Cs != "" {
+				attrs = append(attrs, "    checksum: "+jsonStr(a.Cs))
+			}
+			if a.IsDir {
+				attrs = append(attrs, "    is-dir: true")
+			}
+			if a.NoRec {
+				attrs = append(attrs, "    disable-recursion: true")
+			}
+			if withSkip && a.Skip {
+				attrs = append(attrs, "    skip-cache: true")
+			}
+			if len(attrs) == 0 {
+				fmt.Fprintf(&sb, "  %s: {}\n", jsonStr(a.Path))
+			} else {
+				fmt.Fprintf(&sb, "  %s:\n%s\n", jsonStr(a.Path), strings.Join(attrs, "\n"))
+			}
+		}
+	}
+	arts("inputs", s.In, false)
+	arts("outputs", s.Out, true)
 	abs := filepath.Join(p.Root, rel)
 	must(os.MkdirAll(filepath.Dir(abs), 0o755))
-	must(stg.ToFile(abs))
+	must(os.WriteFile(abs, []byte(sb.String()), 0o644))
 	found := false
 	for _, x := range p.StageFs {
 		if x == rel {
@@ -666,6 +698,7 @@ type Transition struct {
 	Specs []int
 	Obs   []int
 	Text  [][2]string
+	Prot  []string // paths the scenario DEFINED as plain inputs / skip-cache artifacts (spec 10)
 	Info  map[string]interface{}
 	Res   runRes
 }
@@ -695,7 +728,11 @@ func (t *Transition) coq() string {
 	for i, pt := range t.Text {
 		tx[i] = "(" + cxs(pt[0]) + ", " + cxs(pt[1]) + ")"
 	}
-	return fmt.Sprintf("mkT %d %s\n (%s)\n (%s) %s\n (%s)\n (%s) (%s) %s %s %s", t.ID, clist(sems), t.Pre.coq(), t.Cmd.coq(), cbool(t.OK), t.Post.coq(), out, ref, clist(sp), clist(ob), clist(tx))
+	pr := make([]string, len(t.Prot))
+	for i, x := range t.Prot {
+		pr[i] = cxs(x)
+	}
+	return fmt.Sprintf("mkT %d %s\n (%s)\n (%s) %s\n (%s)\n (%s) (%s) %s %s %s %s", t.ID, clist(sems), t.Pre.coq(), t.Cmd.coq(), cbool(t.OK), t.Post.coq(), out, ref, clist(sp), clist(ob), clist(tx), clist(pr))
 }
 
 // do runs one dud command and records the transition.
